@@ -33,6 +33,16 @@ LIT_SAMPLE = {
 }
 
 
+def pick(seq: Sequence[Any], i: Any) -> Any:
+    """seq[i] by an explicit if-chain: indexing a list / tuple with a *symbolic* int makes CrossHair build a symbolic
+    element (a symbolic str for string items, an unbounded search for tuples / objects); the chain forks on i instead
+    and hands back the concrete item."""
+    for j in range(len(seq)):
+        if i == j:
+            return seq[j]
+    return seq[len(seq) - 1]
+
+
 def H(i: int) -> tuple:
     return ("$", i)
 
@@ -49,7 +59,7 @@ def _v(x: Any, args: Sequence[Any]) -> Any:
 
 def _op(x: Any, args: Sequence[Any]) -> Any:
     if isinstance(x, tuple) and x and x[0] == "#":
-        return getattr(ast, x[2][args[x[1]]])()
+        return getattr(ast, pick(x[2], args[x[1]]))()
     return getattr(ast, x)()
 
 
@@ -76,7 +86,7 @@ def build(shape: tuple, args: Sequence[Any] = ()) -> Any:
     if k == "UnaryOp":
         return ast.UnaryOp(_op(shape[1], args), build(shape[2], args))
     if k == "Bin":   # any binary operator: the node class follows the (possibly symbolic) operator
-        name = shape[1][2][args[shape[1][1]]] if isinstance(shape[1], tuple) else shape[1]
+        name = pick(shape[1][2], args[shape[1][1]]) if isinstance(shape[1], tuple) else shape[1]
         l, r = build(shape[2], args), build(shape[3], args)
         if name in BOOL_OPS:
             return ast.BoolOp(getattr(ast, name)(), l, r)
